@@ -1,5 +1,6 @@
 import ImathVerif.Spec.FrustumSpec
 import ImathVerif.Gen.Leaf
+import ImathVerif.Gen.C05
 import Mathlib.Tactic.Ring
 import Mathlib.Tactic.FieldSimp
 import Mathlib.Tactic.Linarith
@@ -406,5 +407,86 @@ theorem ftBox_contains_true (P : Planes6 α) (bx : Box3 α) (h : ftBox P bx 1 = 
 theorem ftBox_empty (P : Planes6 α) (bx : Box3 α) (sgn : α) (h : boxEmpty bx) : ftBox P bx sgn = false := by
   simp only [ftBox]
   rcases h with h | h | h <;> split_ifs <;> first | rfl | exact absurd h ‹_›
+
+/-! ## affine camera matrices -/
+
+/-- affine matrix: last column (0,0,0,1) -/
+def IsAffine (M : M44 α) : Prop := M.x03 = 0 ∧ M.x13 = 0 ∧ M.x23 = 0 ∧ M.x33 = 1
+/-- determinant of the linear part -/
+def det3 (M : M44 α) : α :=
+  M.x00 * (M.x11 * M.x22 - M.x12 * M.x21) - M.x01 * (M.x10 * M.x22 - M.x12 * M.x20) + M.x02 * (M.x10 * M.x21 - M.x11 * M.x20)
+
+theorem mulM44_affine (M : M44 α) (h : IsAffine M) (v : V3 α) :
+    Gen.V3.mulM44 v M = ⟨v.x * M.x00 + v.y * M.x10 + v.z * M.x20 + M.x30, v.x * M.x01 + v.y * M.x11 + v.z * M.x21 + M.x31,
+      v.x * M.x02 + v.y * M.x12 + v.z * M.x22 + M.x32⟩ := by
+  obtain ⟨h0, h1, h2, h3⟩ := h
+  simp only [Gen.V3.mulM44, h0, h1, h2, h3, mul_zero, add_zero, zero_add, div_one]
+
+/-- the triple product scales by the determinant under an affine map -/
+theorem triple_affine (M : M44 α) (h : IsAffine M) (p1 p2 p3 q : V3 α) :
+    vdot (cross (vsub (Gen.V3.mulM44 p2 M) (Gen.V3.mulM44 p1 M)) (vsub (Gen.V3.mulM44 p3 M) (Gen.V3.mulM44 p1 M)))
+        (vsub (Gen.V3.mulM44 q M) (Gen.V3.mulM44 p1 M))
+      = det3 M * vdot (cross (vsub p2 p1) (vsub p3 p1)) (vsub q p1) := by
+  simp only [mulM44_affine M h, vdot, cross, vsub, det3]
+  ring
+
+theorem normSq_ne_zero_of_vdot {c w : V3 α} (h : vdot c w ≠ 0) : normSq c ≠ 0 := by
+  intro hz
+  have hx := mul_self_nonneg c.x; have hy := mul_self_nonneg c.y; have hzz := mul_self_nonneg c.z
+  simp only [normSq] at hz
+  have h1 : c.x * c.x = 0 := by linarith
+  have h2 : c.y * c.y = 0 := by linarith
+  have h3 : c.z * c.z = 0 := by linarith
+  apply h
+  simp only [vdot, mul_self_eq_zero.mp h1, mul_self_eq_zero.mp h2, mul_self_eq_zero.mp h3, zero_mul, add_zero]
+
+/-- **a plane set from three points, moved by an orientation-preserving affine map**: its equation at the image of `q`
+is a positive multiple of the original plane's equation at `q` (same zero set, same side) -/
+theorem planeThroughIf_affine {len : V3 α → α} (hl : LenSpec len) (M : M44 α) (h : IsAffine M) (hdet : 0 < det3 M)
+    (p1 p2 p3 : V3 α) (hc : normSq (cross (vsub p2 p1) (vsub p3 p1)) ≠ 0) :
+    ∃ κ : α, 0 < κ ∧ ∀ q : V3 α,
+      planeEval (planeThroughIf len (Gen.V3.mulM44 p1 M) (Gen.V3.mulM44 p2 M) (Gen.V3.mulM44 p3 M)) (Gen.V3.mulM44 q M)
+        = κ * planeEval (planeThroughIf len p1 p2 p3) q := by
+  have hc' : normSq (cross (vsub (Gen.V3.mulM44 p2 M) (Gen.V3.mulM44 p1 M)) (vsub (Gen.V3.mulM44 p3 M) (Gen.V3.mulM44 p1 M))) ≠ 0 := by
+    apply normSq_ne_zero_of_vdot (w := vsub (Gen.V3.mulM44 ⟨p1.x + (cross (vsub p2 p1) (vsub p3 p1)).x,
+      p1.y + (cross (vsub p2 p1) (vsub p3 p1)).y, p1.z + (cross (vsub p2 p1) (vsub p3 p1)).z⟩ M) (Gen.V3.mulM44 p1 M))
+    rw [triple_affine M h]
+    apply mul_ne_zero (ne_of_gt hdet)
+    have : vdot (cross (vsub p2 p1) (vsub p3 p1)) (vsub ⟨p1.x + (cross (vsub p2 p1) (vsub p3 p1)).x,
+      p1.y + (cross (vsub p2 p1) (vsub p3 p1)).y, p1.z + (cross (vsub p2 p1) (vsub p3 p1)).z⟩ p1)
+        = normSq (cross (vsub p2 p1) (vsub p3 p1)) := by
+      simp only [vdot, vsub, normSq]; ring
+    rw [this]; exact hc
+  have l0 := lenSpec_pos hl _ hc
+  have l1 := lenSpec_pos hl _ hc'
+  refine ⟨det3 M * len (cross (vsub p2 p1) (vsub p3 p1)) /
+    len (cross (vsub (Gen.V3.mulM44 p2 M) (Gen.V3.mulM44 p1 M)) (vsub (Gen.V3.mulM44 p3 M) (Gen.V3.mulM44 p1 M))),
+    div_pos (mul_pos hdet l0) l1, ?_⟩
+  intro q
+  rw [planeThroughIf_eq _ _ _ (ne_of_gt l0), planeThroughIf_eq _ _ _ (ne_of_gt l1), planeThrough_eval hl _ _ _ hc,
+    planeThrough_eval hl _ _ _ hc', triple_affine M h]
+  have := ne_of_gt l0; have := ne_of_gt l1
+  field_simp
+
+/-- six plane equations that agree up to positive factors cut out the same (closed and open) region -/
+theorem planes_pos_factors (P Q : Planes6 α) (x y : V3 α)
+    (h0 : ∃ κ : α, 0 < κ ∧ planeEval P.1 x = κ * planeEval Q.1 y) (h1 : ∃ κ : α, 0 < κ ∧ planeEval P.2.1 x = κ * planeEval Q.2.1 y)
+    (h2 : ∃ κ : α, 0 < κ ∧ planeEval P.2.2.1 x = κ * planeEval Q.2.2.1 y)
+    (h3 : ∃ κ : α, 0 < κ ∧ planeEval P.2.2.2.1 x = κ * planeEval Q.2.2.2.1 y)
+    (h4 : ∃ κ : α, 0 < κ ∧ planeEval P.2.2.2.2.1 x = κ * planeEval Q.2.2.2.2.1 y)
+    (h5 : ∃ κ : α, 0 < κ ∧ planeEval P.2.2.2.2.2 x = κ * planeEval Q.2.2.2.2.2 y) :
+    (strictlyInAllPlanes P x ↔ strictlyInAllPlanes Q y) ∧ (inAllPlanes P x ↔ inAllPlanes Q y) := by
+  obtain ⟨k0, p0, e0⟩ := h0; obtain ⟨k1, p1, e1⟩ := h1; obtain ⟨k2, p2, e2⟩ := h2
+  obtain ⟨k3, p3, e3⟩ := h3; obtain ⟨k4, p4, e4⟩ := h4; obtain ⟨k5, p5, e5⟩ := h5
+  simp only [strictlyInAllPlanes, inAllPlanes, e0, e1, e2, e3, e4, e5, pos_mul_neg_iff p0, pos_mul_neg_iff p1, pos_mul_neg_iff p2,
+    pos_mul_neg_iff p3, pos_mul_neg_iff p4, pos_mul_neg_iff p5, pos_mul_nonpos_iff p0, pos_mul_nonpos_iff p1,
+    pos_mul_nonpos_iff p2, pos_mul_nonpos_iff p3, pos_mul_nonpos_iff p4, pos_mul_nonpos_iff p5, and_self]
+
+theorem cross_near (n l r t b : α) :
+    cross (vsub ⟨r, b, -n⟩ ⟨l, b, -n⟩) (vsub ⟨r, t, -n⟩ ⟨l, b, -n⟩) = (⟨0, 0, (r - l) * (t - b)⟩ : V3 α) := by
+  simp only [cross, vsub]; congr 1 <;> ring
+theorem cross_far (f l r t b : α) :
+    cross (vsub ⟨l, t, -f⟩ ⟨l, b, -f⟩) (vsub ⟨r, t, -f⟩ ⟨l, b, -f⟩) = (⟨0, 0, -((r - l) * (t - b))⟩ : V3 α) := by
+  simp only [cross, vsub]; congr 1 <;> ring
 
 end ImathVerif.C16
